@@ -14,7 +14,7 @@ TIERS = {"quick": {"cases": 400, "wall": 100, "min_nontrivial": 5000},
 RULE = ("for each generated valid program, EVERY single structural mutation of these classes (each invalid by "
         "construction): delete the END statement of any construct/unit; delete the opener of any construct closed by an "
         "END xxx statement (not PROGRAM, not units closed by a bare END, not DO loops closed by a labelled non-END-DO "
-        "statement); delete the labelled terminator of a labelled DO; insert a surplus END IF/DO/SELECT/WHERE/FORALL/"
+        "statement); delete the labelled terminator of a labelled DO; insert a surplus END (every second one with a statement label of its own) IF/DO/SELECT/WHERE/FORALL/"
         "ASSOCIATE/BLOCK/CRITICAL/TYPE/INTERFACE or a surplus opener at every 5th statement boundary of an execution "
         "part; rename the construct name on any END/ELSE/CASE/type-guard statement; delete or insert one parenthesis at "
         "every parenthesis position outside character context. Oracle: the parse must raise (any exception); an "
@@ -121,6 +121,9 @@ def mutations(P):
                 o = opens[(k // 5) % len(opens)]
                 ind = "  " * s.depth
                 yield "surplus-end", "%d:%s" % (i, e), lines[:i] + [ind + e] + lines[i:]
+                if k % 10 == 0 and not any("99998" in l for l in lines):
+                    # the surplus END carries a statement label of its own (no DO names that label)
+                    yield "surplus-end", "%d:99998 %s" % (i, e), lines[:i] + [ind + "99998 " + e] + lines[i:]
                 yield "surplus-opener", "%d:%s" % (i, o), lines[:i] + [ind + o] + lines[i:]
 
 
